@@ -449,6 +449,9 @@ class TooManyPaths(AnalysisError):
     pass
 
 
+STATS = {"paths": 0, "functions": 0}
+
+
 class Enumerator:
     def __init__(self, loop_counts=(0, 1, 2), can_raise=default_can_raise, inline=None,
                  implicit_uncaught=False, max_paths=200000, use_facts=True):
@@ -469,8 +472,10 @@ class Enumerator:
     def function_paths(self, fn, facts=None):
         st = State(None, facts or Facts())
         out = []
+        STATS["functions"] += 1
         for st2, oc in self.block(fn.body, st):
             self._n += 1
+            STATS["paths"] += 1
             if self._n > self.max_paths:
                 raise TooManyPaths("more than %d paths in %s" % (self.max_paths, fn.name))
             kind = oc[0]
